@@ -30,11 +30,16 @@ Scn == [irt : Irt, sirt : Sirt, dest : Dest, aud : Aud, recip : Recip, allow : B
         \* placed before or after the first one
         conf2 : {"absent", "own", "foreign"}, conf2first : BOOLEAN,
         \* the application remembers the same came_from for both outstanding requests (same page in two tabs)
-        sameFrom : BOOLEAN]
+        sameFrom : BOOLEAN,
+        \* an authentication response over a browser binding, or the answer to an attribute query (synchronous, SOAP:
+        \* no solicitation bookkeeping, no Destination check -- but the audience restrictions bind all the same)
+        mtype : {"authn", "attribute"}]
 \* without an endpoint for the arrival binding only the addressing dimensions are varied
 WellFormed(s) == /\ s.endpoint = "otherBindingOnly" =>
                     /\ s.dest \in {"otherBinding", "patternOnly", "foreign", "none"} /\ s.recip \in {"otherBinding", "entityid", "foreign"}
                     /\ s.aud = "me" /\ ~s.enc /\ s.irt = "id1" /\ s.sirt = "id1"
+                 /\ (s.mtype = "attribute" => /\ s.endpoint = "configured" /\ s.conf2 = "absent" /\ ~s.sameFrom /\ ~s.regex /\ ~s.enc
+                                             /\ s.dest = "none" /\ s.irt = "id1" /\ s.sirt = "id1" /\ s.recip = "url" /\ s.binding = "post" /\ ~s.conv)
                  /\ (s.conf2 = "absent" => ~s.conf2first)
                  /\ (s.sameFrom => s.irt = "id1" /\ s.sirt \in {"id1", "id2"} /\ s.conf2 = "absent" /\ s.endpoint = "configured"
                                    /\ s.aud = "me" /\ s.dest \in {"own", "none"} /\ ~s.regex)
@@ -61,7 +66,8 @@ Goto(p) == pc' = p /\ UNCHANGED <<scn, cameFrom, verdict>>
 \* AuthnResponse.loads (both browser bindings are asynchronous hops)
 Loads ==
     /\ pc = "loads"
-    /\ IF scn.irt \in Outstanding
+    /\ IF scn.mtype = "attribute" THEN Goto("conditions")          \* synchronous hop: asynchop is off
+       ELSE IF scn.irt \in Outstanding
        THEN IF ~scn.enc /\ scn.sirt # scn.irt      \* check_subject_confirmation_in_response_to: plain assertions only,
             THEN Reject                            \* an absent InResponseTo (None) differs as well
             ELSE cameFrom' = scn.irt /\ pc' = "destination" /\ UNCHANGED <<scn, verdict>>
@@ -91,7 +97,8 @@ Subject ==
            bearerBad == cameFrom = "none" /\ scn.sirt = "idX" /\ ~scn.allow
            \* repaired: the comparison of loads is repeated on the assertion actually used
            lateBad == Fixed /\ scn.irt \in Outstanding /\ scn.sirt # scn.irt
-       IN IF bearerBad \/ ~RecipOK \/ (~scn.allow /\ cf = "none") \/ lateBad
+       IN IF scn.mtype = "attribute" THEN verdict' = "accept" /\ pc' = "done" /\ UNCHANGED <<scn, cameFrom>>
+          ELSE IF bearerBad \/ ~RecipOK \/ (~scn.allow /\ cf = "none") \/ lateBad
           THEN Reject
           ELSE verdict' = "accept" /\ pc' = "done" /\ cameFrom' = cf /\ UNCHANGED scn
 
@@ -106,12 +113,12 @@ MustReject == \/ ~AudOK
               \/ ~DestAllowed
               \/ (scn.conv /\ scn.recip \in {"foreign", "otherBinding"})
               \/ (scn.conv /\ scn.conf2 = "foreign")
-              \/ (~scn.allow /\ ~Solicited)
+              \/ (scn.mtype = "authn" /\ ~scn.allow /\ ~Solicited)
 \* the fully conformant shapes (the property is an "only if"; nothing else is demanded to pass)
 MustAccept == /\ scn.endpoint = "configured" /\ AudOK /\ scn.conf2 # "foreign" /\ scn.dest \in {"own", "none"} /\ scn.recip \in {"url"} \cup (IF scn.conv THEN {"entityid"} ELSE {})
               /\ \/ (scn.irt = "id1" /\ scn.sirt = "id1")
                  \/ (scn.allow /\ scn.irt = "none" /\ scn.sirt = "none")
-ExpectedCameFrom == IF scn.irt \in Outstanding THEN scn.irt ELSE "unspecified"
+ExpectedCameFrom == IF scn.mtype = "authn" /\ scn.irt \in Outstanding THEN scn.irt ELSE "unspecified"
 
 Emit == /\ pc = "done" /\ pc' = "emitted"
         /\ PrintT(<<"CASE", ToJson([scn |-> scn, model |-> [verdict |-> verdict, cameFrom |-> cameFrom],
